@@ -14,6 +14,7 @@ import (
 	"gopkg.in/yaml.v3"
 
 	"github.com/Vedant9500/WTF/internal/database"
+	"github.com/Vedant9500/WTF/internal/nlp"
 )
 
 // ---------------------------------------------------------------------------
@@ -165,6 +166,11 @@ func mixCommands() []database.Command {
 		out = append(out, database.Command{Command: fmt.Sprintf("zq%dx %s", k, strings.Join(words[:4], " ")),
 			Description: strings.Join(words[4:], " "), Keywords: []string{"scattered"}, Platform: declPalette[(j*2)%len(declPalette)], Pipeline: j%2 == 0})
 	}
+	// documents for NLP expansions: queries made of action synonyms reach these only through NLP-added terms
+	for _, w := range []string{"delete", "remove", "find", "search", "create", "make", "show", "display", "copy", "move", "install", "run", "list", "view"} {
+		k++
+		out = append(out, database.Command{Command: fmt.Sprintf("zq%dx %s item", k, w), Description: strings.Title(w) + " the item in question", Keywords: []string{w}}) //nolint
+	}
 	// decoys
 	for j := 0; j < 3; j++ {
 		k++
@@ -197,6 +203,18 @@ func getCorpus(name string) *corpusT {
 		c = loadCorpus("tie", tieCommands())
 	case "single":
 		c = loadCorpus("single", mixCommands()[:1])
+	case "bigtie":
+		var cmds []database.Command
+		for j := 0; j < 400; j++ {
+			if j%3 == 2 { // fillers keep the tied words below the re-ranker's 80% document-frequency cut-off
+				cmds = append(cmds, database.Command{Command: fmt.Sprintf("zqfill%d gadget%d", j, j), Description: fmt.Sprintf("Filler entry about gadget%d", j),
+					Keywords: []string{fmt.Sprintf("gadget%d", j)}})
+				continue
+			}
+			cmds = append(cmds, database.Command{Command: "zqbig frobnicate " + string(rune('a'+j%26)), Description: "Frobnicate the widget " + string(rune('a'+j%26)),
+				Keywords: []string{"frobnicate", "widget"}})
+		}
+		c = loadCorpus("bigtie", cmds)
 	case "empty":
 		c = loadCorpus("empty", nil)
 	case "shipped":
@@ -252,8 +270,38 @@ func (s scenario) queryText() string {
 		return "frobnicte"
 	case "substr":
 		return "zq1 qqqqzzzz"
+	case "partial": // no lexical hit, not a subsequence, first word nowhere, later words substrings of entries
+		return "qqzz robnicat idge"
+	case "nlpword": // a word unknown to the index whose NLP expansion hits it
+		return nlpWord()
 	}
 	return "qqqqzzzz"
+}
+
+var nlpWordCache string
+
+// nlpWord probes the NLP tables: a word that is not a token of the mix corpus but is analysed as an action/target
+// whose expansion contains a word of the corpus (generate-and-classify, so re-tuned tables do not break the harness)
+func nlpWord() string {
+	if nlpWordCache != "" {
+		return nlpWordCache
+	}
+	corpusWords := map[string]bool{}
+	for _, w := range []string{"delete", "remove", "find", "search", "create", "make", "show", "display", "copy", "move", "install", "run", "list", "view"} {
+		corpusWords[w] = true
+	}
+	p := nlp.NewQueryProcessor()
+	for _, w := range []string{"destroy", "erase", "locate", "discover", "generate", "build", "duplicate", "relocate", "execute", "launch", "setup", "uninstall", "lookup", "construct", "purge", "wipe", "clone"} {
+		pq := p.ProcessQuery(w)
+		for _, e := range append(append([]string{}, pq.Actions...), pq.GetEnhancedKeywords()...) {
+			if corpusWords[e] && !corpusWords[w] {
+				nlpWordCache = w
+				return w
+			}
+		}
+	}
+	nlpWordCache = "destroy"
+	return nlpWordCache
 }
 
 type hit struct {
